@@ -16,7 +16,8 @@ def render_path(cmds, variant):
     for k in cmds:
         c, a = k["c"], list(k["a"])
         nums = sep.join(str(v) for v in a)
-        same = prev is not None and (c == prev or (prev == "M" and c == "L") or (prev == "m" and c == "l"))
+        # the letter may be omitted when the command repeats - except that coordinates after a moveto are implicit LINETOs of the same case
+        same = prev is not None and ((c == prev and c not in "Mm") or (prev == "M" and c == "L") or (prev == "m" and c == "l"))
         if implicit and same and a:
             out.append(nums)
         else:
@@ -81,10 +82,10 @@ def run_stage(ctx):
         x, y = pu.position_scale(2.0, -3.0, code)
         if not (math.isclose(x, 2.0 * f) and math.isclose(y, -3.0 * f)):
             obs.append({"helper": "position_scale", "in": [2.0, -3.0, code], "real": [x, y]})
+    ctx.stage("extended.plot_misc.G", kind="spec->code (outside the listed properties)", vectors=n, differences=len(obs))
     pobs, pn = path_stage(ctx, pu)
     obs += pobs
     ctx.stage("extended.path_data.G", kind="spec->code (outside the listed properties)", vectors=pn, differences=len(pobs))
-    ctx.stage("extended.plot_misc.G", kind="spec->code (outside the listed properties)", vectors=n, differences=len(obs))
     ctx.notes["extended_observations"] = obs[:10]
     for o in obs[:5]:
         print("EXTENDED-OBSERVATION property=%s (outside the listed statements) %s" % (ctx.pid, o))
